@@ -436,6 +436,76 @@ pub fn run(sim: &Sim, cfg: &RunCfg) -> RunOut {
                     }
                     check_log(sim, if *st == 0 { "after ADD_MEM_REG" } else { "after SET_MEM_TABLE" }, &lf, &dirty);
                 }
+                // ---- requests the log in force cannot go along with: they are refused, and a
+                // refused request leaves memory table, notifications and the log as they were
+                let table_of = |gm: &GM<B>| -> Vec<(u64, u64)> {
+                    let mut v: Vec<(u64, u64)> = gm.memory().iter().map(|r| (r.start_addr().0, r.len())).collect();
+                    v.sort();
+                    v
+                };
+                let mut want: Vec<(u64, u64)> = current.iter().map(|r| (r.gpa, r.size)).collect();
+                want.sort();
+                match sim.with_w(|t| t.draw(3)) {
+                    0 => {
+                        // a region whose pages lie beyond what the log covers
+                        let (first, pages) = sim.with_w(|t| (size * 8 + t.draw(4), t.range(1, 3)));
+                        let r = GRegion {
+                            gpa: first * PAGE,
+                            size: pages * PAGE,
+                            uva: 0x7d00_0000_0000,
+                            off: 0,
+                            file: pool.add(pages * PAGE),
+                        };
+                        let notified = log.lock().unwrap().update_memory;
+                        let res = vmm.fe.add_mem_region(&pool.info(&r));
+                        sim.settle();
+                        if res.is_ok() {
+                            sim.violation(Violation::new("C15", "uncoverable_region_accepted", "", format!("ADD_MEM_REG of pages {first}..{} accepted although the log in force ({size} bytes) ends at page {}", first + pages - 1, size * 8 - 1)));
+                        }
+                        let got = table_of(&gm);
+                        let n2 = log.lock().unwrap().update_memory;
+                        if got != want || n2 != notified {
+                            sim.violation(Violation::new(
+                                "C15",
+                                "refused_region_changed_memory",
+                                "",
+                                format!("ADD_MEM_REG beyond the dirty log was refused ({res:?}), yet the backend's memory is {got:x?} (table before: {want:x?}) and update_memory ran {} more time(s)", n2 - notified),
+                            ));
+                        }
+                        sim.probe("region_beyond_log_refused");
+                    }
+                    1 => {
+                        // a second, too small log is refused; the connection ends; memory mapped by
+                        // the next connection is still logged in the log that was accepted
+                        let small = LogFile::new(off_pages, (top / 8).max(1));
+                        if top / 8 >= 1 && set_log(&mut vmm, &small).is_err() {
+                            drop(vmm);
+                            let _ = daemon.wait();
+                            vmm = connect(&mut daemon, &mut listener);
+                            let newr: Vec<GRegion> = sim.with_w(|t| {
+                                let mut v = gen_regions(t, &mut pool, 1, 0, 7);
+                                v.retain(|r| (r.gpa + r.size - 1) / PAGE <= top);
+                                v
+                            });
+                            if let Some(r) = newr.first() {
+                                let infos = vec![pool.info(r)];
+                                if vmm.fe.set_mem_table(&infos).is_ok() {
+                                    let o = sim.with_w(|t| t.draw(r.size));
+                                    if gm.memory().write_slice(&[0x55u8], GuestAddress(r.gpa + o)).is_ok() {
+                                        dirty.extend(pages_of(r.gpa + o, 1));
+                                        check_log(sim, "after a refused second SET_LOG_BASE and a new memory table", &lf, &dirty);
+                                        let b = small.bytes();
+                                        if b.iter().any(|x| *x != 0) {
+                                            sim.violation(Violation::new("C15", "write_to_refused_log", "", "the log file of a refused SET_LOG_BASE was written to".to_string()));
+                                        }
+                                        sim.probe("refused_second_log_then_new_table");
+                                    }
+                                }
+                            }
+                        }
+                    }
+                    _ => {}
+                }
             }
         }
     }
